@@ -1,5 +1,5 @@
 """Driver library for ./check — build pipeline, sharded runs, evidence merge, known findings."""
-import json, os, shutil, subprocess, sys, time, glob, resource, hashlib
+import json, os, shutil, subprocess, sys, time, glob, resource, hashlib, re
 
 VERIF = os.path.dirname(os.path.dirname(os.path.abspath(__file__)))
 REPO = os.environ.get("VERIF_REPO", "/repo")
@@ -235,6 +235,11 @@ def merge(chk, tier, seed, jobs, outdir, wall, failures):
                     cov["samples"].append({"part": p.name, "case": s})
         vc = d.get("violation_count") or {}
         for v in d.get("violations") or []:
+            # a shared model may evaluate oracles of several properties: keys carry the property prefix
+            m = re.match(r"^(C\d\d):", v["key"])
+            if m and m.group(1) != chk.id:
+                cov["counters"]["foreign_property_violations_ignored"] = cov["counters"].get("foreign_property_violations_ignored", 0) + 1
+                continue
             v["part"] = p.name
             v["count_for_key_in_shard"] = vc.get(v["key"], 1)
             viols.append(v)
